@@ -54,13 +54,19 @@ def _check_global(pck, plot, L, v, tag):
     if len(keys) != nf or [pck.fields[k] for k in keys] != list(range(nf)):
         v.append(f"{tag}: fields {pck.fields} do not map one unique key per component in header order")
     else:
-        for k, n in zip(keys, plot.fields):
-            if not (k == n or (k.startswith(n + "_") and k[len(n) + 1:].isdigit())):
-                v.append(f"{tag}: field key {k!r} does not name header field {n!r}")
-                break
-        else:
-            if len(set(plot.fields)) == nf and keys != plot.fields:
-                v.append(f"{tag}: field names {keys} != header {plot.fields}")
+        # a repeated name is exposed under the first free name among name_2, name_3, ... (the reader's documented
+        # convention: the k-th occurrence is name_k unless the header already uses that literal name)
+        exp = []
+        for n in plot.fields:
+            if n not in exp:
+                exp.append(n)
+            else:
+                k = 2
+                while f"{n}_{k}" in exp:
+                    k += 1
+                exp.append(f"{n}_{k}")
+        if keys != exp:
+            v.append(f"{tag}: field names {keys} != header names {plot.fields} (repeats numbered from _2: {exp})")
     if pck.ndims != plot.ndims:
         v.append(f"{tag}: ndims {pck.ndims} != {plot.ndims}")
     if pck.time != plot.time:
